@@ -388,12 +388,13 @@ def d1(ctx, facts, S, key, fn, inst, m, x, cfg):
         for ts2 in core.try_sites(body):
             if ts2['call_bb'] is None or ts2['ok_bb'] is None:
                 continue
-            if S.canon_pred(inst.callee_key(ts2['call_bb'])) != pred:
-                continue
             t2 = body.term(ts2['call_bb'])
             a2 = tuple(core.strip_var_ids(body.canon_op(a)) for a in t2['args'])
-            if a2 != args:
-                continue
+            if S.canon_pred(inst.callee_key(ts2['call_bb'])) != pred or a2 != args:
+                # ... or a pure validator that cannot return Ok without this very predicate having succeeded
+                # (`validate(o, r, s)?` = `check_supported(o, r)?; checked_len(s)?; Ok(())`)
+                if (pred, args) not in must_leaves(S, inst, ts2['call_bb'], a2, key):
+                    continue
             edge = (ts2['switch_bb'], ts2['ok_bb'])
             if body.edge_dominates(edge, m['bb'], removed) and m['bb'] in body.reachable_from(0, removed):
                 found = ts2
@@ -405,6 +406,39 @@ def d1(ctx, facts, S, key, fn, inst, m, x, cfg):
         proofs.append('%s(%s) already Ok at %s' % (core.short(pred), ', '.join(core.show(a) for a in args), found['line']))
         ctx.ok('C07.d1', '%s|%s|%s@%s' % (key, core.short(pred), m['what'].split(' (')[0], cfg), None)
     return True, '; '.join(proofs) + (' [branch facts: %s]' % {body.local_name(l): v for l, v in bf.items()} if bf else '')
+
+
+def must_leaves(S, inst, call_bb, args, key, _depth=0):
+    """(predicate, caller-side arguments) pairs that have succeeded whenever the pure crate function called at call_bb returned Ok:
+    its own `?` sites whose Ok edge dominates every Ok exit, one level deep"""
+    cal = inst.callee(call_bb)
+    ck = cal.get('key') or cal.get('path') or '?'
+    if not cal.get('local') or cal.get('unresolved') or not S.pure(ck):
+        return set()
+    callee = S.inst(ck)
+    if callee.fn is None:
+        return set()
+    cb = callee.fn.body
+    errs, oks = core.result_exits(cb)
+    okb = [b for (b, k, d) in oks]
+    if not okb:
+        return set()
+    sub = {n: args[i] for i, n in enumerate(callee.fn.param_names()) if n is not None and i < len(args)}
+    out = set()
+    if len(oks) == 1 and oks[0][1] == 'tailcall' and not errs and _depth < 3:
+        # a forwarder (`RateDecoder::validate` = `Self::Rate::validate(o, r, s)`): what its target guarantees
+        tb = oks[0][0]
+        a3 = tuple(summ.subst(core.strip_var_ids(cb.canon_op(a)), sub) for a in cb.term(tb)['args'])
+        return must_leaves(S, callee, tb, a3, key, _depth + 1)
+    for ts in core.try_sites(cb):
+        if ts['call_bb'] is None or ts['ok_bb'] is None:
+            continue
+        if not all(cb.edge_dominates((ts['switch_bb'], ts['ok_bb']), ob) for ob in okb):
+            continue
+        for leaf in S._callee_fs(callee, ts['call_bb'], (key, ck)):
+            if leaf[0] == 'pred':
+                out.add((leaf[1], tuple(summ.subst(a, sub) for a in leaf[2])))
+    return out
 
 
 def stable_value(body, c):
